@@ -89,7 +89,7 @@ fn square_up(shape: &mut [usize]) {
 /// mean over another axis, 7 division spelled c * Reciprocal(d), 8 scale is a graph input, 9 `mean - x`.
 /// Free: epsilon value (1e-5 / 1e-3 / 0.1) and position, axes as attribute or input, -1 vs r-1, operand orders.
 pub fn layer_norm(g: &mut G) -> Vid {
-    g.nk = 10;
+    g.knobs(&["axis", "keepdims0", "epsshape", "scaleshape", "bias", "pow", "dupcentre", "recipdiv", "scaleinput", "negcentre"]);
     let mut shape = g.base_shape(1, 4);
     let keep = g.kc(1, 2) == 0;
     if !keep {
@@ -157,7 +157,7 @@ pub fn layer_norm(g: &mut G) -> Vid {
 /// 5 `x / Sqrt(..)` instead of `x * Reciprocal(..)`, 6 scale is a graph input, 7 Pow of a different value.
 /// Free: Reciprocal op vs `1 / s`, bracketing of the product, epsilon value / position, axes spelling.
 pub fn rms_norm(g: &mut G) -> Vid {
-    g.nk = 8;
+    g.knobs(&["axis", "keepdims0", "epsshape", "scaleshape", "pow", "divsqrt", "scaleinput", "otherpow"]);
     let mut shape = g.base_shape(1, 4);
     let keep = g.kc(1, 2) == 0;
     if !keep {
